@@ -126,7 +126,7 @@ fn verif_native_c08_gridshift_selection() {
     assert!(fails.is_empty(), "C08.N.gridshift.selection: FAILSET{{{}}} {} of {} evaluations wrong, first: {:?}", ids.join(","), fails.len(), n, &fails[..fails.len().min(4)]);
 }
 
-//@n {"id":"C08.N.deformation.selection","props":["C08","C10"],"tier":"quick","bound":"two overlapping constant deformation grids A (up 1 m/yr, inner) and B (up 2 m/yr, outer) x 4 grid lists x 5 probe points x both directions; `deformation raw dt=1`, whose 4th output element is the size of the applied deformation; through Plain","text":"deformation selects grids as documented -- first containing grid, then first within the margin, null grid passes unchanged, else failure -- identically in the forward and the inverse direction"}
+//@n {"id":"C08.N.deformation.selection","props":["C08","C10","C02"],"tier":"quick","bound":"also with the 5 points as one set in two orders; two overlapping constant deformation grids A (up 1 m/yr, inner) and B (up 2 m/yr, outer) x 4 grid lists x 5 probe points x both directions; `deformation raw dt=1`, whose 4th output element is the size of the applied deformation; through Plain","text":"deformation selects grids as documented -- first containing grid, then first within the margin, null grid passes unchanged, else failure -- identically in the forward and the inverse direction"}
 #[test]
 fn verif_native_c08_deformation_selection() {
     setup();
@@ -152,6 +152,39 @@ fn verif_native_c08_deformation_selection() {
                 continue;
             }
         };
+        // the same points as ONE set, in two orders: the grid serving a point must not depend on its neighbours
+        for order in [[0usize, 1, 2, 3, 4], [1, 0, 3, 2, 4]] {
+            for dir in [Fwd, Inv] {
+                let d = if dir == Fwd { "F" } else { "I" };
+                let mut set: Vec<Coor4D> = order.iter().map(|k| Coor4D::geo(pts[*k].0, pts[*k].1, 0.0, 2000.0)).collect();
+                cart.apply(to_cart, Fwd, &mut set).unwrap();
+                let start = set.clone();
+                let r = ctx.apply(op, if d == "F" { Fwd } else { Inv }, &mut set).unwrap();
+                n += 1;
+                let mut expected_count = 0;
+                for (slot, k) in order.iter().enumerate() {
+                    let e = exp[*k];
+                    let ok = match e {
+                        Which::Fail => set[slot][0].is_nan(),
+                        Which::Null => set[slot][0] == start[slot][0] && set[slot][2] == start[slot][2],
+                        Which::A => (set[slot][3] - 1.0).abs() < 1e-9,
+                        Which::B => (set[slot][3] - 2.0).abs() < 1e-9,
+                    };
+                    if e != Which::Fail {
+                        expected_count += 1;
+                    }
+                    if !ok {
+                        ids.push(format!("{li}.set{}{d}", order[0]));
+                        fails.push(format!("grids={list}, points as one set (order {:?}) {d}: point {:?} gives {:?}, expected grid {:?}", order, pts[*k], set[slot], e));
+                        break;
+                    }
+                }
+                if r != expected_count {
+                    ids.push(format!("{li}.cnt{}{d}", order[0]));
+                    fails.push(format!("grids={list}, points as one set (order {:?}) {d}: counted {r}, expected {expected_count}", order));
+                }
+            }
+        }
         for (pi, p) in pts.iter().enumerate() {
             for dir in [Fwd, Inv] {
                 let d = if dir == Fwd { "F" } else { "I" };
